@@ -366,10 +366,14 @@ impl Net {
     ("".into(), "".into())
   }
 
-  fn body(&self, f: usize, wrap: Option<usize>) -> String {
+  fn body(&self, f: usize, wrap: Option<usize>, heap: bool) -> String {
     let mut out = vec![];
     for (i, (op, c)) in self.fibers[f].iter().enumerate() {
       let mut st = match op {
+        // heap mode: every value is a fresh list only the channel refers to and a full collection is forced after every operation
+        // (the marker arms the collector for the next allocation, which the list literal behind it provides at once)
+        0 if heap => format!("c{c} <- ['{}', {i}]; print('{f} {i} s'); print('@@gc full'); [{i}];", val_name(val(f, i))),
+        1 if heap => format!("let x{i} = <- c{c}; print('@@gc full'); [{i}]; print('{f} {i} r ' + (x{i} == nil ? 'nil' : x{i}[0]));"),
         0 => format!("c{c} <- '{}'; print('{f} {i} s');", val_name(val(f, i))),
         1 => format!("let x{i} = <- c{c}; print('{f} {i} r ' + (x{i} == nil ? 'nil' : x{i}));"),
         3 => format!("launch f{c}({}); print('{f} {i} l');", (0..self.kinds.len()).map(|k| format!("c{k}")).collect::<Vec<_>>().join(", ")),
@@ -384,6 +388,10 @@ impl Net {
   }
 
   pub fn program(&self, wrap: Option<(usize, usize)>) -> String {
+    self.program_mode(wrap, false)
+  }
+
+  pub fn program_mode(&self, wrap: Option<(usize, usize)>, heap: bool) -> String {
     let mut l = vec![];
     for (c, k) in self.kinds.iter().enumerate() {
       if *k == 0 {
@@ -396,7 +404,7 @@ impl Net {
     let params = params.join(", ");
     for f in 1..self.fibers.len() {
       let w = wrap.and_then(|(wf, wi)| if wf == f { Some(wi) } else { None });
-      l.push(format!("fn f{f}({params}) {{ {} }}", self.body(f, w)));
+      l.push(format!("fn f{f}({params}) {{ {} }}", self.body(f, w, heap)));
     }
     let at_init = self.started_at_init();
     for f in 1..self.fibers.len() {
@@ -405,7 +413,7 @@ impl Net {
       }
     }
     let w = wrap.and_then(|(wf, wi)| if wf == 0 { Some(wi) } else { None });
-    l.push(self.body(0, w));
+    l.push(self.body(0, w, heap));
     l.push("print('0 end');".to_string());
     l.join("\n")
   }
